@@ -55,3 +55,8 @@ claim("C05", "other",
   "Narrow necessary conditions of 'the accepted language is the SPDX grammar': scanner/parser operator and token-role tables agree (G1, G3), keyword order (G2), every buffer rewrite keeps all unread input and every cursor advance covers only matched text (G4, linear entailment under inferred cursor invariants), acceptance only at end of input (G5), consumption implies error or progress (G6, abstract interpretation with a symbolic cursor), every listed id is readable (G7), precedence layering and parenthesis transparency (P1).",
   "Language equality itself is NOT decided (e.g. which interleavings of '+', WITH, ':' are accepted). No recogniser is extracted and run.",
   "writer/reader table agreement + linear entailment on cursor arithmetic + abstract interpretation of the token cursor", "DESIGN.md section 3 C05")
+
+claim("C09", "other",
+  "Table clauses exhaustive over all listed ids (fold-uniqueness under the exact relation strings.EqualFold implements; no id has a case variant beginning with a scanner keyword), code clauses by provenance (the lookup folds and returns list spelling; only list spelling reaches tokens and node fields; later comparisons are between canonical strings).",
+  "Operators, reference prefixes and -only/-or-later suffixes are matched case-sensitively by construction and are outside the property. Output casing relies on C06 E3.",
+  "exhaustive table lint + provenance of token and node text", "DESIGN.md section 3 C09")
